@@ -113,6 +113,12 @@ class ChainNode(Entity):
         # CRAQ: track keys with uncommitted writes
         self._dirty_keys: set[str] = set()
 
+        # Highest write sequence applied / known committed, per key. Propagate and
+        # CommitNotify messages for one key can overtake each other, and several writes
+        # to one key can be in flight at once, so both are tracked by sequence number.
+        self._applied_seq: dict[str, int] = {}
+        self._committed_seq: dict[str, int] = {}
+
         # Pending write futures (HEAD: seq -> SimFuture)
         self._pending_writes: dict[int, SimFuture] = {}
         self._next_seq: int = 0
@@ -206,6 +212,7 @@ class ChainNode(Entity):
 
         # Apply locally
         yield from self._store.put(key, value)
+        self._applied_seq[key] = seq
 
         # Mark dirty for CRAQ
         if self._craq_enabled:
@@ -231,12 +238,10 @@ class ChainNode(Entity):
 
             # Clean up
             self._pending_writes.pop(seq, None)
-            if self._craq_enabled:
-                self._dirty_keys.discard(key)
+            self._mark_committed(key, seq)
         else:
             # Single-node chain (HEAD is also TAIL)
-            if self._craq_enabled:
-                self._dirty_keys.discard(key)
+            self._mark_committed(key, seq)
 
         if reply_future is not None:
             reply_future.resolve({"status": "ok", "seq": seq})
@@ -254,11 +259,15 @@ class ChainNode(Entity):
 
         self._propagations_received += 1
 
-        # Apply locally
-        yield from self._store.put(key, value)
-
-        if self._craq_enabled:
-            self._dirty_keys.add(key)
+        # Apply locally after the store's write latency, unless a newer write to the same
+        # key has already been applied (a later Propagate overtook this one). The stale
+        # write is still forwarded / acknowledged so its client gets a reply.
+        yield self._store.write_latency
+        if seq > self._applied_seq.get(key, 0):
+            self._applied_seq[key] = seq
+            self._store.put_sync(key, value)
+            if self._craq_enabled:
+                self._dirty_keys.add(key)
 
         if self._role == ChainNodeRole.TAIL:
             # Send ack back to head
@@ -273,9 +282,9 @@ class ChainNode(Entity):
                 self._acks_sent += 1
                 yield 0.0, [ack_event]
 
-            # CRAQ: key is now clean, notify chain
+            # CRAQ: this write is committed, notify chain
+            self._mark_committed(key, seq)
             if self._craq_enabled:
-                self._dirty_keys.discard(key)
                 # Notify upstream nodes that key is committed
                 events = self._build_commit_notifications(key, seq)
                 if events:
@@ -307,7 +316,19 @@ class ChainNode(Entity):
         """CRAQ: mark key as clean (committed)."""
         metadata = event.context.get("metadata", {})
         key = metadata.get("key")
+        seq = metadata.get("seq", 0)
         if key and self._craq_enabled:
+            self._mark_committed(key, seq)
+
+    def _mark_committed(self, key: str, seq: int) -> None:
+        """Record that write ``seq`` of ``key`` is committed at the tail.
+
+        The key becomes clean only when the newest version applied here is committed;
+        an older in-flight write's commit must not hide a newer uncommitted one.
+        """
+        if seq > self._committed_seq.get(key, 0):
+            self._committed_seq[key] = seq
+        if self._committed_seq.get(key, 0) >= self._applied_seq.get(key, 0):
             self._dirty_keys.discard(key)
 
     def _handle_read(
@@ -318,6 +339,10 @@ class ChainNode(Entity):
         metadata = event.context.get("metadata", {})
         key = metadata.get("key")
         reply_future: SimFuture | None = metadata.get("reply_future")
+
+        # Read locally first; the dirty check is made at the instant the value is read,
+        # so a write applied during the read latency cannot leak an uncommitted value.
+        value = yield from self._store.get(key)
 
         # CRAQ: if not tail and key is dirty, forward to tail
         if (
@@ -340,7 +365,6 @@ class ChainNode(Entity):
 
         # Serve locally
         self._reads_served += 1
-        value = yield from self._store.get(key)
 
         if reply_future is not None:
             reply_future.resolve({"status": "ok", "value": value})
